@@ -629,3 +629,28 @@ mod tests {
         assert_eq!(FLAG.load(Ordering::Relaxed), unsafe { MAX_OBJECTS });
     }
 }
+
+/// Wrappers and introspection for the verification harness.
+#[cfg(circ_verif)]
+pub mod verif_shim_internal {
+    use super::*;
+
+    pub fn is_expired(global_data: usize, bag_data: usize) -> bool {
+        use crate::ebr_impl::epoch::verif_shim_epoch::from_data;
+        let sb = SealedBag {
+            epoch: from_data(bag_data),
+            _bag: Bag(Vec::new()),
+        };
+        sb.is_expired(from_data(global_data))
+    }
+    pub fn tuning() -> [usize; 4] {
+        unsafe {
+            [
+                MAX_OBJECTS,
+                MANUAL_EVENTS_BETWEEN_COLLECT,
+                Global::COLLECTS_TRIALS,
+                Local::COUNTS_BETWEEN_ADVANCE,
+            ]
+        }
+    }
+}
